@@ -18,6 +18,7 @@ import (
 	"net/textproto"
 	"sort"
 	"strings"
+	"sync"
 	"sync/atomic"
 	"testing"
 
@@ -120,11 +121,30 @@ func (t *twin) write(proxy bool) ([]byte, error) {
 }
 
 // countWriter is the marbl sink: it keeps nothing but the number of bytes.
-type countWriter struct{ n int64 }
+type countWriter struct {
+	n   int64
+	mu  sync.Mutex
+	ids map[string]int // frames per exchange: bytes 2..10 of a marbl frame are the first 8 characters of the context ID
+}
 
 func (w *countWriter) Write(p []byte) (int, error) {
 	atomic.AddInt64(&w.n, int64(len(p)))
+	if len(p) >= 10 {
+		w.mu.Lock()
+		if w.ids == nil {
+			w.ids = map[string]int{}
+		}
+		w.ids[string(p[2:10])]++
+		w.mu.Unlock()
+	}
 	return len(p), nil
+}
+
+// frames is the number of frames written for the exchange with this context ID.
+func (w *countWriter) frames(id string) int {
+	w.mu.Lock()
+	defer w.mu.Unlock()
+	return w.ids[id[:8]]
 }
 
 type applied struct {
